@@ -19,7 +19,7 @@ PtsPat(k, n) ==
       [] k = 4 -> {P("m", "ka", 1, "T1", 0), P("m", "kb", 0, "", 0)}
       [] k = 5 -> {P("value", "0", 3, "", 1)}
       [] k = 6 -> {P("description", "", 0, "T1", 0), P("note", "", 0, "T3", 0)}
-      [] k = 7 -> {P("nodeID", "", 0, "n2", 0), P("nodeID", "b", 0, "n1", 0)}
+      [] k = 7 -> {P("nodeID", "", 0, "n2", 0), P("nodeID", "b", 0, "n1", 0), P("nodeID", "c", 0, "n2", 1)}   \* the last one: a deleted entry of a list of references
       [] k = 8 -> {P("nodeID", "", 0, "ext", 0), P("nodeID", "1", 0, "", 0), P("description", "0", 0, "T2", 0)}
 EptsPat(k) ==
     {P("tombstone", "0", 0, "", 0)} \cup
